@@ -560,8 +560,8 @@ impl Worker {
             // only heights of the batch are removed
             forall|h: int| final(log)@.heights.contains(h) ==> old(log)@.heights.contains(h) || r_has(range, h),
 //@sub E8 "self .store .get_sampling_metadata(height) .await? .map(|m| m.cids) .unwrap_or_default()" => "(match self.store.get_sampling_metadata(height).await? { Some(m) => m.cids, None => Vec::new() })"
-//@sub E13 "self.blockstore.remove(&cid)" => "self.blockstore.remove(&cid, log)"
-//@sub E13 "self.store.remove_height(height)" => "self.store.remove_height(height, log)"
+//@addarg "self.blockstore.remove" "log"
+//@addarg "self.store.remove_height" "log"
 //@for 1 rangeinc
 //@loop 1
                 invariant
